@@ -1,9 +1,12 @@
 (* Eco/Rpm/Range.v — model of pkg/ecosystem/rpm/range.go *)
 From Verif.Base Require Import Bytes GoNum Ord.
+From Verif.Gen Require Operators.
 From Verif.Eco Require Import RangeCore.
 
 (* operators in parseRPMConstraint, source order *)
-Definition rpm_ops : list bytes := [$">="; $"<="; $"!="; $">"; $"<"; $"="].
+(* the list is generated from the Go source on every run (tools/gen -> Gen/Operators.v) *)
+Definition rpm_ops : list bytes :=
+  Eval cbv delta [Verif.Gen.Operators.rpm_ops] in Verif.Gen.Operators.rpm_ops.
 
 (* strings.Fields(strings.ReplaceAll(rangeStr, ",", " ")) *)
 Definition split_rpm (t : bytes) : list bytes :=
